@@ -26,7 +26,7 @@ ASSUMPTIONS = ['canonical encodings only (declared lengths equal actual lengths)
 KINDS = ['scalar', 'string', 'ipaddr', 'epath', 'status', 'typed_data', 'logix_request', 'logix_reply', 'object_request', 'object_reply',
          'multiple_request', 'multiple_reply', 'forward_open', 'forward_open_reply', 'forward_close', 'forward_close_reply',
          'unconnected_send', 'cpf', 'command', 'frame']
-REQUIRED = ['kind:' + k for k in KINDS] + ['monitor:bytes-equal', 'monitor:fields-recovered', 'monitor:regenerated', 'monitor:reproduce-after-edit', 'monitor:ref-decoded',
+REQUIRED = ['kind:' + k for k in KINDS] + ['monitor:bytes-equal', 'monitor:fields-recovered', 'monitor:regenerated', 'monitor:reproduce-after-edit', 'sweep:reply-status-values', 'monitor:ref-decoded',
                                            'epath:extended-port', 'epath:address-link', 'epath:32bit-element', 'epath:odd-symbolic', 'string:odd-length',
                                            'status:extended', 'forward_open:large', 'unconnected_send:odd-length']
 TIMEOUT = {'quick': 300, 'thorough': 1800}
@@ -325,6 +325,9 @@ def gen_object_request(env, rng):
     return kind, f
 
 
+FORCED_REPLY = []           # (kind, status, extended status words): the deterministic status sweep of run()
+
+
 def gen_object_reply(env, rng):
     gen = env.gen
     kind = rng.choice(['get_attributes_all', 'get_attribute_single', 'get_attribute_list', 'set_attribute_single'])
@@ -333,6 +336,9 @@ def gen_object_reply(env, rng):
     st, ext = gen.status(rng)
     if rng.random() < 0.6:
         st, ext = 0, []
+    if FORCED_REPLY:
+        kind, st, ext = FORCED_REPLY.pop()
+        svc = {'get_attributes_all': 0x81, 'get_attribute_single': 0x8E, 'get_attribute_list': 0x83, 'set_attribute_single': 0x90}[kind]
     f = dict(status_fields(st, ext), service=svc)
     if st == 0 and kind not in ('set_attribute_single',):
         n = rng.choice([1, 2, 4, 9, 40])
@@ -806,6 +812,15 @@ def run(ctx):
     env = Env(ctx)
     rng = ctx.rng
     n = 300 if ctx.tier == 'quick' else 10**7
+    # every general status value on every attribute-service reply, without and with extended status words (a status that one service
+    # gives a special meaning to is one value in 255)
+    sweep = [(k_, st, ext) for k_ in ('get_attributes_all', 'get_attribute_single', 'get_attribute_list', 'set_attribute_single')
+             for st in range(1, 256) for ext in ([], [0x2105], [5, 0xFFFF])]
+    for j, item in enumerate(sweep):
+        if j % ctx.nshards == ctx.shard:
+            FORCED_REPLY.append(item)
+            one_case(env, 'object_reply', rng)
+            ctx.count('sweep:reply-status-values')
     for i in range(n):
         if ctx.expired():
             break
